@@ -103,4 +103,1150 @@ theorem bit_setBit (bs bs' : Bits) (i j : Nat) (v : Bool) (hj : j < 8 * bs.lengt
           simp [hij]
       · cases h
 
+/-! ## Entry thread machine -/
+
+theorem setPhase_get (w : EWorld) (tid : Nat) (p : EPhase) (t : Nat) (th' : EThread)
+    (h : (w.setPhase tid p).threads[t]? = some th') :
+    (t ≠ tid ∧ w.threads[t]? = some th') ∨ (t = tid ∧ ∃ th, w.threads[tid]? = some th ∧ th' = { th with phase := p }) := by
+  unfold EWorld.setPhase at h
+  simp only [List.getElem?_modify] at h
+  by_cases e : tid = t
+  · subst e
+    right
+    cases hh : w.threads[tid]? with
+    | none => rw [hh] at h; simp at h
+    | some th => rw [hh] at h; simp at h; exact ⟨rfl, th, rfl, h.symm⟩
+  · left
+    refine ⟨fun x => e x.symm, ?_⟩
+    cases hh : w.threads[t]? with
+    | none => rw [hh] at h; simp at h
+    | some th => rw [hh] at h; simp [e] at h; rw [h]
+
+theorem setPhase_node (w : EWorld) (tid : Nat) (p : EPhase) : (w.setPhase tid p).node = w.node := rfl
+theorem setPhase_now (w : EWorld) (tid : Nat) (p : EPhase) : (w.setPhase tid p).now = w.now := rfl
+
+/-- invariant of the issuer node with running `Entry` calls; `x` = a thread whose row lock is not claimed (none: all are) -/
+structure EInvX (E : Env) (w : EWorld) (x : Option Nat) : Prop where
+  fn : ∀ r1 r2, r1 ∈ w.node.pages → r2 ∈ w.node.pages → r1.id = r2.id → r1 = r2
+  le : ∀ r, r ∈ w.node.pages → r.last ≤ E.maxIndex
+  done : ∀ (t : Nat) (th : EThread) l i, w.threads[t]? = some th → th.phase = .done l i → ∃ r, r ∈ w.node.pages ∧ r.id = l ∧ i ≤ r.last
+  lock : ∀ (t : Nat) (th : EThread) r, some t ≠ x → w.threads[t]? = some th → th.phase = .locked (some r) →
+    ∃ r', r' ∈ w.node.pages ∧ r'.id = r.id ∧ r'.lock = some t ∧ r'.last = r.last
+  uniq : ∀ (t1 t2 : Nat) (th1 th2 : EThread) l i, t1 ≠ t2 → w.threads[t1]? = some th1 → w.threads[t2]? = some th2 →
+    th1.phase = .done l i → th2.phase ≠ .done l i
+
+abbrev EInv (E : Env) (w : EWorld) : Prop := EInvX E w none
+
+theorem EInvX.weaken {E : Env} {w : EWorld} (h : EInv E w) (x : Option Nat) : EInvX E w x :=
+  { fn := h.fn, le := h.le, done := h.done, uniq := h.uniq,
+    lock := fun t th r _ h1 h2 => h.lock t th r (by simp) h1 h2 }
+
+/-- a step that leaves the pages alone and changes at most the phase of `tid` to something that is neither `done`
+    nor `locked (some _)` keeps the invariant -/
+theorem EInvX.setPhase_inert {E : Env} {w : EWorld} {x : Option Nat} (h : EInvX E w x) (tid : Nat) (p : EPhase)
+    (hd : ∀ l i, p ≠ .done l i) (hl : ∀ r, p ≠ .locked (some r)) : EInvX E (w.setPhase tid p) x := by
+  refine { fn := h.fn, le := h.le, done := ?_, lock := ?_, uniq := ?_ }
+  · intro t th l i ht hp
+    rcases setPhase_get w tid p t th ht with ⟨_, h1⟩ | ⟨_, th0, _, e⟩
+    · exact h.done t th l i h1 hp
+    · subst e; exact absurd hp (hd l i)
+  · intro t th r hx ht hp
+    rcases setPhase_get w tid p t th ht with ⟨_, h1⟩ | ⟨_, th0, _, e⟩
+    · exact h.lock t th r hx h1 hp
+    · subst e; exact absurd hp (hl r)
+  · intro t1 t2 th1 th2 l i hne h1 h2 hp1
+    rcases setPhase_get w tid p t1 th1 h1 with ⟨_, g1⟩ | ⟨_, th0, _, e⟩
+    · rcases setPhase_get w tid p t2 th2 h2 with ⟨_, g2⟩ | ⟨_, th0, _, e⟩
+      · exact h.uniq t1 t2 th1 th2 l i hne g1 g2 hp1
+      · subst e; exact hd l i
+    · subst e; exact absurd hp1 (hd l i)
+
+
+theorem beq_url {a b : Url} : (a == b) = true ↔ a = b := by simp
+
+/-- read step -/
+theorem eRead_inv {E : Env} {w : EWorld} (h : EInv E w) (tid : Nat) (sel : Option Url) : EInv E (eRead E w tid sel) := by
+  unfold eRead
+  split
+  · rename_i th hth
+    split
+    · rename_i pin hph
+      split
+      · exact h.setPhase_inert tid _ (by intros; simp) (by intros; simp)
+      · split
+        · exact h.setPhase_inert tid _ (by intros; simp) (by intros; simp)
+        · rename_i u
+          split
+          · rename_i r hfind
+            have hr_mem := List.mem_of_find?_eq_some hfind
+            have hr_p := List.find?_some hfind
+            simp only [Bool.and_eq_true, beq_iff_eq, Option.isNone_iff_eq_none] at hr_p
+            obtain ⟨⟨hrid, _⟩, hrlock⟩ := hr_p
+            -- the world with the row locked, before the phase change
+            refine { fn := ?_, le := ?_, done := ?_, lock := ?_, uniq := ?_ }
+            · intro r1 r2 h1 h2 hid
+              simp only [setPhase_node, List.mem_map] at h1 h2
+              obtain ⟨a, ha, rfl⟩ := h1
+              obtain ⟨b, hb, rfl⟩ := h2
+              have : a.id = b.id := by
+                by_cases ea : a.id = u <;> by_cases eb : b.id = u <;> simp [ea, eb] at hid <;> simp_all
+              have := h.fn a b ha hb this
+              subst this; rfl
+            · intro r1 h1
+              simp only [setPhase_node, List.mem_map] at h1
+              obtain ⟨a, ha, rfl⟩ := h1
+              have := h.le a ha
+              by_cases ea : a.id = u <;> simp [ea] <;> exact this
+            · intro t th' l i ht hp
+              rcases setPhase_get _ tid _ t th' ht with ⟨_, h1⟩ | ⟨_, th0, _, e⟩
+              · obtain ⟨a, ha, hal, hai⟩ := h.done t th' l i h1 hp
+                simp only [setPhase_node]
+                refine ⟨if a.id == u then { a with lock := some tid } else a, List.mem_map.mpr ⟨a, ha, rfl⟩, ?_, ?_⟩
+                · by_cases ea : a.id = u <;> simp [ea, hal] <;> simp_all
+                · by_cases ea : a.id = u <;> simp [ea, hai]
+              · subst e; simp at hp
+            · intro t th' r0 _ ht hp
+              simp only [setPhase_node]
+              rcases setPhase_get _ tid _ t th' ht with ⟨hne, h1⟩ | ⟨he, th0, _, e⟩
+              · obtain ⟨a, ha, haid, halock, halast⟩ := h.lock t th' r0 (by simp) h1 hp
+                have hau : a.id ≠ u := by
+                  intro e
+                  have := h.fn a r ha hr_mem (by rw [e, hrid])
+                  subst this
+                  rw [hrlock] at halock; cases halock
+                refine ⟨a, List.mem_map.mpr ⟨a, ha, by simp [hau]⟩, haid, halock, halast⟩
+              · subst e; subst he
+                simp only [EPhase.locked.injEq, Option.some.injEq] at hp
+                subst hp
+                refine ⟨{ r with lock := some t }, List.mem_map.mpr ⟨r, hr_mem, by simp [hrid]⟩, rfl, rfl, rfl⟩
+            · intro t1 t2 th1 th2 l i hne h1 h2 hp1
+              rcases setPhase_get _ tid _ t1 th1 h1 with ⟨_, g1⟩ | ⟨_, th0, _, e⟩
+              · rcases setPhase_get _ tid _ t2 th2 h2 with ⟨_, g2⟩ | ⟨_, th0, _, e⟩
+                · exact h.uniq t1 t2 th1 th2 l i hne g1 g2 hp1
+                · subst e; simp
+              · subst e; simp at hp1
+          · exact h
+    all_goals exact h
+  · exact h
+
+
+theorem entryDecide_update {E : Env} {now : Nat} {n : Node} {issuer kid : String} {row : Option PageRow} {id : Url} {last : Nat}
+    (h : entryDecide E now n issuer kid row = .update id last) :
+    ∃ r, row = some r ∧ id = r.id ∧ last = r.last + 1 ∧ last ≤ E.maxIndex := by
+  unfold entryDecide at h
+  simp only at h
+  by_cases hgt : (entryCur E issuer row).last + 1 > E.maxIndex
+  · rw [if_pos hgt] at h
+    repeat (first | cases h | split at h)
+  · rw [if_neg hgt] at h
+    cases row with
+    | none => simp [entryCur] at hgt
+    | some r =>
+      simp only [entryCur, WOut.update.injEq] at h hgt
+      exact ⟨r, rfl, h.1.symm, h.2.symm, by omega⟩
+
+theorem entryDecide_create {E : Env} {now : Nat} {n : Node} {issuer kid : String} {row : Option PageRow} {nr : PageRow} {rec : CredRec}
+    (h : entryDecide E now n issuer kid row = .create nr rec) :
+    nr.last = 0 ∧ nr.lock = none ∧ n.isManaged nr.id = false := by
+  unfold entryDecide at h
+  simp only at h
+  generalize entryCur E issuer row = cur at h
+  split at h
+  · split at h
+    · cases h
+    · rename_i hm
+      split at h
+      · cases h
+      · split at h
+        · split at h
+          · cases h
+          · simp only [WOut.create.injEq] at h
+            obtain ⟨h1, _⟩ := h
+            subst h1
+            exact ⟨rfl, rfl, by simpa using hm⟩
+        · cases h
+        · cases h
+  · cases h
+
+theorem isManaged_false {n : Node} {u : Url} (h : n.isManaged u = false) : ∀ r, r ∈ n.pages → r.id ≠ u := by
+  unfold Node.isManaged Node.page? at h
+  intro r hr e
+  have : (n.pages.find? (fun r => r.id == u)).isSome = true := List.find?_isSome.mpr ⟨r, hr, by simp [e]⟩
+  rw [this] at h; cases h
+
+theorem unlock_pages (n : Node) (tid : Nat) :
+    (n.unlock tid).pages = n.pages.map (fun r => if r.lock == some tid then { r with lock := none } else r) := rfl
+
+
+def unlockRow (tid : Nat) (r : PageRow) : PageRow := if r.lock == some tid then { r with lock := none } else r
+theorem unlockRow_id (tid : Nat) (r : PageRow) : (unlockRow tid r).id = r.id := by unfold unlockRow; split <;> rfl
+theorem unlockRow_last (tid : Nat) (r : PageRow) : (unlockRow tid r).last = r.last := by unfold unlockRow; split <;> rfl
+
+theorem unlock_inv {E : Env} {w : EWorld} (h : EInv E w) (tid : Nat) (th : EThread) (row : Option PageRow)
+    (hth : w.threads[tid]? = some th) (hph : th.phase = .locked row) :
+    EInvX E { w with node := w.node.unlock tid } (some tid) ∧
+    (∀ r, row = some r → ∃ r', r' ∈ (w.node.unlock tid).pages ∧ r'.id = r.id ∧ r'.last = r.last ∧ r'.lock = none) := by
+  have hp : (w.node.unlock tid).pages = w.node.pages.map (unlockRow tid) := rfl
+  constructor
+  · refine { fn := ?_, le := ?_, done := ?_, lock := ?_, uniq := h.uniq }
+    · intro r1 r2 h1 h2 hid
+      simp only [hp, List.mem_map] at h1 h2
+      obtain ⟨a, ha, rfl⟩ := h1
+      obtain ⟨b, hb, rfl⟩ := h2
+      rw [unlockRow_id, unlockRow_id] at hid
+      rw [h.fn a b ha hb hid]
+    · intro r hr
+      simp only [hp, List.mem_map] at hr
+      obtain ⟨a, ha, rfl⟩ := hr
+      rw [unlockRow_last]; exact h.le a ha
+    · intro t th' l i ht hd
+      obtain ⟨a, ha, hal, hai⟩ := h.done t th' l i ht hd
+      exact ⟨unlockRow tid a, by simp only [hp]; exact List.mem_map.mpr ⟨a, ha, rfl⟩, by rw [unlockRow_id]; exact hal, by rw [unlockRow_last]; exact hai⟩
+    · intro t th' r hx ht hl
+      obtain ⟨a, ha, haid, halock, halast⟩ := h.lock t th' r (by simp) ht hl
+      have hne : t ≠ tid := fun e => hx (by rw [e])
+      refine ⟨a, ?_, haid, halock, halast⟩
+      simp only [hp]
+      refine List.mem_map.mpr ⟨a, ha, ?_⟩
+      unfold unlockRow
+      have : (a.lock == some tid) = false := by rw [halock]; simp [hne]
+      simp [this]
+  · intro r hr
+    subst hr
+    obtain ⟨a, ha, haid, halock, halast⟩ := h.lock tid th r (by simp) hth hph
+    refine ⟨unlockRow tid a, by simp only [hp]; exact List.mem_map.mpr ⟨a, ha, rfl⟩, by rw [unlockRow_id]; exact haid, by rw [unlockRow_last]; exact halast, ?_⟩
+    unfold unlockRow
+    simp [halock]
+
+/-- commit / rollback of the write step, on the node whose lock held by `tid` has been released -/
+theorem applyOut_inv {E : Env} {w : EWorld} {tid : Nat} {th : EThread} {row : Option PageRow} {kid : String}
+    (h : EInvX E w (some tid)) (_hth : w.threads[tid]? = some th) (hph : th.phase = .locked row)
+    (hsnap : ∀ r, row = some r → ∃ r', r' ∈ w.node.pages ∧ r'.id = r.id ∧ r'.last = r.last ∧ r'.lock = none) :
+    EInv E ({ w with node := (w.node.applyOut (entryDecide E w.now w.node th.issuer kid row)).1 }.setPhase tid
+      (w.node.applyOut (entryDecide E w.now w.node th.issuer kid row)).2) := by
+  have tid_not_done : ∀ l i, th.phase ≠ .done l i := by intro l i; rw [hph]; simp
+  cases hout : entryDecide E w.now w.node th.issuer kid row with
+  | retry pin =>
+    simp only [Node.applyOut]
+    have := h.setPhase_inert tid (.start (some pin)) (by intros; simp) (by intros; simp)
+    exact { fn := this.fn, le := this.le, done := this.done, uniq := this.uniq,
+            lock := fun t th' r _ ht hl => by
+              rcases setPhase_get _ tid _ t th' ht with ⟨hne, _⟩ | ⟨_, th0, _, e⟩
+              · exact this.lock t th' r (by simp [hne]) ht hl
+              · subst e; simp at hl }
+  | fail e =>
+    simp only [Node.applyOut]
+    have := h.setPhase_inert tid (.failed e) (by intros; simp) (by intros; simp)
+    exact { fn := this.fn, le := this.le, done := this.done, uniq := this.uniq,
+            lock := fun t th' r _ ht hl => by
+              rcases setPhase_get _ tid _ t th' ht with ⟨hne, _⟩ | ⟨_, th0, _, e⟩
+              · exact this.lock t th' r (by simp [hne]) ht hl
+              · subst e; simp at hl }
+  | update id last =>
+    obtain ⟨r, hrow, hid, hlast, hle⟩ := entryDecide_update hout
+    obtain ⟨r', hr'mem, hr'id, hr'last, hr'lock⟩ := hsnap r hrow
+    simp only [Node.applyOut]
+    let g : PageRow → PageRow := fun x => if x.id == id then { x with last := last } else x
+    have gid : ∀ x, (g x).id = x.id := by intro x; simp only [g]; split <;> rfl
+    have glock : ∀ x, (g x).lock = x.lock := by intro x; simp only [g]; split <;> rfl
+    have glast_ge : ∀ x, x ∈ w.node.pages → x.last ≤ (g x).last := by
+      intro x hx
+      simp only [g]
+      split
+      · rename_i e
+        have e' : x.id = r'.id := by rw [hr'id, ← hid]; simpa using e
+        have := h.fn x r' hx hr'mem e'
+        subst this
+        simp; omega
+      · exact Nat.le_refl _
+    refine { fn := ?_, le := ?_, done := ?_, lock := ?_, uniq := ?_ }
+    · intro r1 r2 h1 h2 hid'
+      simp only [setPhase_node, List.mem_map] at h1 h2
+      obtain ⟨a, ha, rfl⟩ := h1
+      obtain ⟨b, hb, rfl⟩ := h2
+      have : a = b := h.fn a b ha hb (by have := gid a; have := gid b; simp only [g] at *; simp_all)
+      rw [this]
+    · intro x hx
+      simp only [setPhase_node, List.mem_map] at hx
+      obtain ⟨a, ha, rfl⟩ := hx
+      by_cases e : a.id = id
+      · simp [e]; exact hle
+      · simp [e]; exact h.le a ha
+    · intro t th' l i ht hd
+      simp only [setPhase_node]
+      rcases setPhase_get _ tid _ t th' ht with ⟨_, h1⟩ | ⟨_, th0, _, e⟩
+      · obtain ⟨a, ha, hal, hai⟩ := h.done t th' l i h1 hd
+        exact ⟨g a, List.mem_map.mpr ⟨a, ha, rfl⟩, by rw [gid]; exact hal, Nat.le_trans hai (glast_ge a ha)⟩
+      · subst e
+        simp only [EPhase.done.injEq] at hd
+        obtain ⟨rfl, rfl⟩ := hd
+        refine ⟨g r', List.mem_map.mpr ⟨r', hr'mem, rfl⟩, by rw [gid, hr'id, hid], ?_⟩
+        have : r'.id = id := by rw [hr'id, hid]
+        simp [g, this]
+    · intro t th' r0 _ ht hl
+      simp only [setPhase_node]
+      rcases setPhase_get _ tid _ t th' ht with ⟨hne, h1⟩ | ⟨_, th0, _, e⟩
+      · obtain ⟨a, ha, haid, halock, halast⟩ := h.lock t th' r0 (by simp [hne]) h1 hl
+        have hane : ¬ (a.id = id) := by
+          intro e
+          have := h.fn a r' ha hr'mem (by rw [e, hr'id, hid])
+          subst this
+          rw [hr'lock] at halock; cases halock
+        exact ⟨a, List.mem_map.mpr ⟨a, ha, by simp [hane]⟩, haid, halock, halast⟩
+      · subst e; simp at hl
+    · -- no other thread already holds (id, last): every earlier result on this list is ≤ r.last
+      have old : ∀ t' th', t' ≠ tid → w.threads[t']? = some th' → th'.phase ≠ .done id last := by
+        intro t' th' _ ht' hd
+        obtain ⟨a, ha, hal, hai⟩ := h.done t' th' id last ht' hd
+        have := h.fn a r' ha hr'mem (by rw [hal, hr'id, hid])
+        subst this
+        omega
+      intro t1 t2 th1 th2 l i hne h1 h2 hp1
+      rcases setPhase_get _ tid _ t1 th1 h1 with ⟨n1, g1⟩ | ⟨e1, th0, _, e⟩
+      · rcases setPhase_get _ tid _ t2 th2 h2 with ⟨_, g2⟩ | ⟨_, th0, _, e⟩
+        · exact h.uniq t1 t2 th1 th2 l i hne g1 g2 hp1
+        · subst e
+          simp only
+          intro hd
+          simp only [EPhase.done.injEq] at hd
+          obtain ⟨rfl, rfl⟩ := hd
+          exact old t1 th1 n1 g1 hp1
+      · subst e
+        simp only [EPhase.done.injEq] at hp1
+        obtain ⟨rfl, rfl⟩ := hp1
+        rcases setPhase_get _ tid _ t2 th2 h2 with ⟨n2, g2⟩ | ⟨e2, _, _, _⟩
+        · exact old t2 th2 n2 g2
+        · exact absurd (e1.trans e2.symm) hne
+  | create nr rec =>
+    obtain ⟨hnr0, hnrlock, hnm⟩ := entryDecide_create hout
+    have hfresh := isManaged_false hnm
+    simp only [Node.applyOut]
+    refine { fn := ?_, le := ?_, done := ?_, lock := ?_, uniq := ?_ }
+    · intro r1 r2 h1 h2 hid
+      simp only [setPhase_node, List.mem_cons] at h1 h2
+      rcases h1 with rfl | h1 <;> rcases h2 with rfl | h2
+      · rfl
+      · exact absurd hid.symm (hfresh r2 h2)
+      · exact absurd hid (hfresh r1 h1)
+      · exact h.fn r1 r2 h1 h2 hid
+    · intro x hx
+      simp only [setPhase_node, List.mem_cons] at hx
+      rcases hx with rfl | hx
+      · omega
+      · exact h.le x hx
+    · intro t th' l i ht hd
+      simp only [setPhase_node]
+      rcases setPhase_get _ tid _ t th' ht with ⟨_, h1⟩ | ⟨_, th0, _, e⟩
+      · obtain ⟨a, ha, hal, hai⟩ := h.done t th' l i h1 hd
+        exact ⟨a, List.mem_cons_of_mem _ ha, hal, hai⟩
+      · subst e
+        simp only [EPhase.done.injEq] at hd
+        obtain ⟨rfl, rfl⟩ := hd
+        exact ⟨nr, List.mem_cons_self, rfl, Nat.zero_le _⟩
+    · intro t th' r0 _ ht hl
+      simp only [setPhase_node]
+      rcases setPhase_get _ tid _ t th' ht with ⟨hne, h1⟩ | ⟨_, th0, _, e⟩
+      · obtain ⟨a, ha, haid, halock, halast⟩ := h.lock t th' r0 (by simp [hne]) h1 hl
+        exact ⟨a, List.mem_cons_of_mem _ ha, haid, halock, halast⟩
+      · subst e; simp at hl
+    · have old : ∀ t' th', t' ≠ tid → w.threads[t']? = some th' → th'.phase ≠ .done nr.id 0 := by
+        intro t' th' _ ht' hd
+        obtain ⟨a, ha, hal, _⟩ := h.done t' th' nr.id 0 ht' hd
+        exact hfresh a ha hal
+      intro t1 t2 th1 th2 l i hne h1 h2 hp1
+      rcases setPhase_get _ tid _ t1 th1 h1 with ⟨n1, g1⟩ | ⟨e1, th0, _, e⟩
+      · rcases setPhase_get _ tid _ t2 th2 h2 with ⟨_, g2⟩ | ⟨_, th0, _, e⟩
+        · exact h.uniq t1 t2 th1 th2 l i hne g1 g2 hp1
+        · subst e
+          simp only
+          intro hd
+          simp only [EPhase.done.injEq] at hd
+          obtain ⟨rfl, rfl⟩ := hd
+          exact old t1 th1 n1 g1 hp1
+      · subst e
+        simp only [EPhase.done.injEq] at hp1
+        obtain ⟨rfl, rfl⟩ := hp1
+        rcases setPhase_get _ tid _ t2 th2 h2 with ⟨n2, g2⟩ | ⟨e2, _, _, _⟩
+        · exact old t2 th2 n2 g2
+        · exact absurd (e1.trans e2.symm) hne
+
+
+theorem eWrite_inv {E : Env} {w : EWorld} (h : EInv E w) (tid : Nat) : EInv E (eWrite E w tid) := by
+  unfold eWrite
+  split
+  · rename_i th hth
+    split
+    · rename_i row hph
+      split
+      · exact h.setPhase_inert tid _ (by intros; simp) (by intros; simp)
+      · rename_i kid _
+        obtain ⟨h0, hsnap⟩ := unlock_inv h tid th row hth hph
+        exact applyOut_inv (w := { w with node := w.node.unlock tid }) (kid := kid) h0 hth hph hsnap
+    all_goals exact h
+  · exact h
+
+theorem putCred_pages (n : Node) (rec : CredRec) : (n.putCred rec).pages = n.pages := rfl
+
+/-- what a successful `Revoke` did -/
+theorem revoke_ok {E : Env} {now : Nat} {n n' : Node} {credId : String} {e : StatusEntry}
+    (h : revoke E now n credId e = .ok n') :
+    ∃ (i : Nat) (row : PageRow) (kid : String) (vc : VC) (rec : CredRec),
+      e.idx = some (i : Int) ∧ e.purpose = "revocation" ∧ n.page? e.list = some row ∧ E.keyOf row.issuer = some kid ∧
+      (∀ r, r ∈ n.revs → ¬ (r.list = e.list ∧ r.idx = i)) ∧ i ≤ row.last ∧
+      updateCredential E now row (({ n with revs := n.revs ++ [{ list := e.list, idx := i, credId := credId }] } : Node).revsOf e.list) kid = .ok (vc, rec) ∧
+      n' = ({ n with revs := n.revs ++ [{ list := e.list, idx := i, credId := credId }] } : Node).putCred rec := by
+  unfold revoke at h
+  split at h
+  · cases h
+  · rename_i i hi
+    split at h
+    · cases h
+    · rename_i hpurp
+      split at h
+      · cases h
+      · rename_i row hrow
+        split at h
+        · cases h
+        · rename_i kid hkid
+          split at h
+          · cases h
+          · rename_i hdup
+            split at h
+            · cases h
+            · rename_i hrange
+              simp only at h
+              split at h
+              · rename_i vc rec hup
+                cases h
+                have hi0 : 0 ≤ i := by omega
+                refine ⟨i.toNat, row, kid, vc, rec, ?_, ?_, hrow, hkid, ?_, ?_, hup, rfl⟩
+                · rw [hi]; congr 1; omega
+                · simpa using hpurp
+                · intro r hr ⟨h1, h2⟩
+                  apply hdup
+                  rw [List.any_eq_true]
+                  refine ⟨r, hr, ?_⟩
+                  simp [h1, h2]; omega
+                · omega
+              · cases h
+              · cases h
+
+theorem revoke_pages {E : Env} {now : Nat} {n n' : Node} {credId : String} {e : StatusEntry}
+    (h : revoke E now n credId e = .ok n') : n'.pages = n.pages := by
+  obtain ⟨i, row, kid, vc, rec, _, _, _, _, _, _, _, rfl⟩ := revoke_ok h
+  rfl
+
+/-- what a successful `Credential` did: served the stored credential (long enough valid), or re-issued -/
+theorem credential_ok {E : Env} {now : Nat} {n n' : Node} {issuer : String} {page : Nat} {vc : VC}
+    (h : credential E now n issuer page = .ok (vc, n')) :
+    ∃ row, n.page? (n.url issuer page) = some row ∧
+      ((∃ rec e, n.cred? (n.url issuer page) = some rec ∧ rec.expires = some e ∧ now + E.minLeft < e ∧ vc = rec.raw ∧ n' = n) ∨
+       (∃ kid rec, E.keyOf issuer = some kid ∧
+          updateCredential E now row (n.revsOf (n.url issuer page)) kid = .ok (vc, rec) ∧ n' = n.putCred rec)) := by
+  unfold credential at h
+  simp only at h
+  split at h
+  · cases h
+  · rename_i row hrow
+    refine ⟨row, hrow, ?_⟩
+    split at h
+    · cases h
+    · cases h
+    · rename_i vc0 hc
+      simp only [Res.ok.injEq, Prod.mk.injEq] at h
+      obtain ⟨rfl, rfl⟩ := h
+      left
+      split at hc
+      · cases hc
+      · rename_i rec hrec
+        split at hc
+        · cases hc
+        · rename_i e he
+          split at hc
+          · rename_i hlt
+            simp only [Res.ok.injEq, Option.some.injEq] at hc
+            exact ⟨rec, e, hrec, he, hlt, hc.symm, rfl⟩
+          · cases hc
+    · right
+      split at h
+      · cases h
+      · rename_i kid hkid
+        split at h
+        · rename_i vc1 rec hup
+          simp only [Res.ok.injEq, Prod.mk.injEq] at h
+          obtain ⟨rfl, rfl⟩ := h
+          exact ⟨kid, rec, hkid, hup, rfl⟩
+        · cases h
+        · cases h
+
+theorem credential_pages {E : Env} {now : Nat} {n n' : Node} {issuer : String} {page : Nat} {vc : VC}
+    (h : credential E now n issuer page = .ok (vc, n')) : n'.pages = n.pages := by
+  obtain ⟨row, _, h1 | h1⟩ := credential_ok h
+  · obtain ⟨_, _, _, _, _, _, rfl⟩ := h1; rfl
+  · obtain ⟨_, _, _, _, rfl⟩ := h1; rfl
+
+theorem EInvX.of_pages {E : Env} {w w' : EWorld} {x : Option Nat} (h : EInvX E w x) (hp : w'.node.pages = w.node.pages)
+    (ht : w'.threads = w.threads) : EInvX E w' x :=
+  { fn := by rw [hp]; exact h.fn, le := by rw [hp]; exact h.le, done := by rw [hp, ht]; exact h.done,
+    lock := by rw [hp, ht]; exact h.lock, uniq := by rw [ht]; exact h.uniq }
+
+theorem eStep_inv {E : Env} {w : EWorld} (h : EInv E w) (a : EAct) : EInv E (eStep E w a) := by
+  cases a with
+  | spawn issuer =>
+    have key : ∀ (t : Nat) (th : EThread), (w.threads ++ [({ issuer := issuer } : EThread)])[t]? = some th →
+        w.threads[t]? = some th ∨ th.phase = .start none := by
+      intro t th ht
+      rw [List.getElem?_append] at ht
+      split at ht
+      · exact Or.inl ht
+      · right
+        cases hh : t - w.threads.length with
+        | zero => rw [hh] at ht; simp at ht; rw [← ht]
+        | succ k => rw [hh] at ht; simp at ht
+    refine { fn := h.fn, le := h.le, done := ?_, lock := ?_, uniq := ?_ }
+    · intro t th l i ht hd
+      rcases key t th ht with h1 | h1
+      · exact h.done t th l i h1 hd
+      · rw [h1] at hd; cases hd
+    · intro t th r hx ht hl
+      rcases key t th ht with h1 | h1
+      · exact h.lock t th r hx h1 hl
+      · rw [h1] at hl; cases hl
+    · intro t1 t2 th1 th2 l i hne h1 h2 hp1
+      rcases key t1 th1 h1 with g1 | g1
+      · rcases key t2 th2 h2 with g2 | g2
+        · exact h.uniq t1 t2 th1 th2 l i hne g1 g2 hp1
+        · rw [g2]; simp
+      · rw [g1] at hp1; cases hp1
+  | read tid sel => exact eRead_inv h tid sel
+  | write tid => exact eWrite_inv h tid
+  | revoke credId e =>
+    simp only [eStep]
+    split
+    · rename_i n hn; exact h.of_pages (revoke_pages hn) rfl
+    · exact h
+  | serve issuer page =>
+    simp only [eStep]
+    split
+    · rename_i vc n hn; exact h.of_pages (credential_pages hn) rfl
+    · exact h
+  | tick d => exact h.of_pages rfl rfl
+
+theorem eRun_inv {E : Env} (acts : List EAct) : ∀ {w : EWorld}, EInv E w → EInv E (eRun E w acts) := by
+  induction acts with
+  | nil => intro w h; exact h
+  | cons a rest ih => intro w h; exact ih (eStep_inv h a)
+
+/-! ## issuer-side tables -/
+
+/-- the bit at `j` as a Bool (`false` out of range) -/
+def getB (bs : Bits) (j : Nat) : Bool := match bs.bit (j : Int) with | .ok b => b | _ => false
+
+theorem getB_setBit {bs bs' : Bits} {i j : Nat} (hj : j < 8 * bs.length) (h : bs.setBit (i : Int) true = .ok bs') :
+    getB bs' j = (decide (i = j) || getB bs j) := by
+  unfold getB
+  rw [bit_setBit bs bs' i j true hj h]
+  by_cases e : i = j <;> simp [e]
+
+theorem getB_newBits (n j : Nat) : getB (newBits n) j = false := by
+  unfold getB Bits.bit newBits
+  have h1 : ¬ ((j : Int) < 0) := by omega
+  simp only [h1, if_false, Int.toNat_natCast, List.length_replicate]
+  by_cases h : j / 8 ≥ n
+  · simp [h]
+  · have hlt : j / 8 < n := by omega
+    simp only [h, if_false]
+    rw [List.getElem?_replicate]
+    simp only [hlt, if_true]
+    rw [isSet_zero _ (Nat.mod_lt j (by omega))]
+
+theorem setAll_spec : ∀ (is : List Nat) (bs : Bits), (∀ i, i ∈ is → i < 8 * bs.length) →
+    ∃ bs', setAll bs is = .ok bs' ∧ bs'.length = bs.length ∧ ∀ j, j < 8 * bs.length → getB bs' j = (decide (j ∈ is) || getB bs j) := by
+  intro is
+  induction is with
+  | nil => intro bs _; exact ⟨bs, rfl, rfl, by intro j _; simp⟩
+  | cons i rest ih =>
+    intro bs hr
+    obtain ⟨bs1, h1⟩ := setBit_ok bs i true (hr i List.mem_cons_self)
+    have hl1 := setBit_length h1
+    obtain ⟨bs2, h2, hl2, hb2⟩ := ih bs1 (by intro k hk; rw [hl1]; exact hr k (List.mem_cons_of_mem _ hk))
+    refine ⟨bs2, by simp only [setAll, h1]; exact h2, by rw [hl2, hl1], ?_⟩
+    intro j hj
+    rw [hb2 j (by rw [hl1]; exact hj), getB_setBit hj h1]
+    by_cases e1 : i = j
+    · subst e1; simp
+    · have e1' : ¬ (j = i) := fun e => e1 e.symm
+      by_cases e2 : j ∈ rest <;> simp [e1, e1', e2]
+
+structure EnvOK (E : Env) : Prop where
+  idx : E.maxIndex + 1 = 8 * E.lenBytes
+  min : E.minLeft ≤ E.validity
+  sign : ∀ issuer kid body, E.keyOf issuer = some kid → body.issuer = issuer →
+    E.verify { body := body, proof := some (E.sign kid body) } = true
+
+/-- the stored record is a credential this node built and signed with the list issuer's key -/
+def Signed (E : Env) (rec : CredRec) : Prop :=
+  ∃ kid row t, E.keyOf row.issuer = some kid ∧ row.id = rec.id ∧
+    rec.raw = { body := listBody E t row rec.bits, proof := some (E.sign kid (listBody E t row rec.bits)) } ∧
+    rec.expires = some (t + E.validity) ∧ rec.purpose = "revocation"
+
+theorem updateCredential_inv {E : Env} {now : Nat} {row : PageRow} {idxs : List Nat} {kid : String} {vc : VC} {rec : CredRec}
+    (h : updateCredential E now row idxs kid = .ok (vc, rec)) :
+    setAll (newBits E.lenBytes) idxs = .ok rec.bits ∧ rec.id = row.id ∧ rec.raw = vc ∧ rec.purpose = "revocation" ∧
+    rec.expires = some (now + E.validity) ∧ rec.createdAt = now ∧
+    vc = { body := listBody E now row rec.bits, proof := some (E.sign kid (listBody E now row rec.bits)) } := by
+  unfold updateCredential at h
+  split at h
+  · rename_i bits hb
+    simp only [Res.ok.injEq, Prod.mk.injEq] at h
+    obtain ⟨rfl, rfl⟩ := h
+    exact ⟨hb, rfl, rfl, rfl, rfl, rfl, rfl⟩
+  · cases h
+  · cases h
+
+theorem updateCredential_ok (E : Env) (hE : EnvOK E) (now : Nat) (row : PageRow) (idxs : List Nat) (kid : String)
+    (hr : ∀ i, i ∈ idxs → i ≤ E.maxIndex) : ∃ vc rec, updateCredential E now row idxs kid = .ok (vc, rec) := by
+  have hlen : (newBits E.lenBytes).length = E.lenBytes := by simp [newBits]
+  obtain ⟨bs, h, _, _⟩ := setAll_spec idxs (newBits E.lenBytes) (by intro i hi; rw [hlen]; have := hr i hi; have := hE.idx; omega)
+  unfold updateCredential
+  rw [h]
+  exact ⟨_, _, rfl⟩
+
+theorem updateCredential_signed {E : Env} {now : Nat} {row : PageRow} {idxs : List Nat} {kid : String} {vc : VC} {rec : CredRec}
+    (hk : E.keyOf row.issuer = some kid) (h : updateCredential E now row idxs kid = .ok (vc, rec)) : Signed E rec := by
+  obtain ⟨_, hid, hraw, hp, he, _, hvc⟩ := updateCredential_inv h
+  exact ⟨kid, row, now, hk, hid.symm, by rw [hraw, hvc], he, hp⟩
+
+theorem page?_some {n : Node} {u : Url} {row : PageRow} (h : n.page? u = some row) : row ∈ n.pages ∧ row.id = u := by
+  unfold Node.page? at h
+  exact ⟨List.mem_of_find?_eq_some h, by simpa using List.find?_some h⟩
+
+theorem cred?_some {n : Node} {u : Url} {rec : CredRec} (h : n.cred? u = some rec) : rec ∈ n.creds ∧ rec.id = u := by
+  unfold Node.cred? at h
+  exact ⟨List.mem_of_find?_eq_some h, by simpa using List.find?_some h⟩
+
+theorem find?_filter_ne (l : List CredRec) (k u : Url) (hne : k ≠ u) :
+    (l.filter (fun c => !(c.id == k))).find? (fun c => c.id == u) = l.find? (fun c => c.id == u) := by
+  induction l with
+  | nil => rfl
+  | cons c rest ih =>
+    by_cases e : c.id = k
+    · have h1 : (c.id == k) = true := by simp [e]
+      have h2 : (c.id == u) = false := by rw [e]; simp [hne]
+      simp only [List.filter, h1, Bool.not_true, List.find?_cons, h2]
+      exact ih
+    · have h1 : (c.id == k) = false := by simp [e]
+      simp only [List.filter, h1, Bool.not_false, List.find?_cons, ih]
+
+theorem cred?_putCred (n : Node) (rec : CredRec) (u : Url) :
+    (n.putCred rec).cred? u = if rec.id = u then some rec else n.cred? u := by
+  unfold Node.putCred Node.cred?
+  simp only [List.find?_cons]
+  by_cases e : rec.id = u
+  · simp [e]
+  · simp only [show (rec.id == u) = false by simp [e], e, if_false]
+    exact find?_filter_ne n.creds rec.id u e
+
+theorem revsOf_append (n : Node) (rv : RevRow) (u : Url) :
+    ({ n with revs := n.revs ++ [rv] } : Node).revsOf u = if rv.list = u then n.revsOf u ++ [rv.idx] else n.revsOf u := by
+  unfold Node.revsOf
+  simp only [List.filter_append, List.map_append]
+  by_cases e : rv.list = u
+  · simp [List.filter, e]
+  · have : (rv.list == u) = false := by simp [e]
+    simp [List.filter, e, this]
+
+
+theorem isManaged_iff {n : Node} {u : Url} : n.isManaged u = true ↔ ∃ r, r ∈ n.pages ∧ r.id = u := by
+  unfold Node.isManaged Node.page?
+  rw [List.find?_isSome]
+  constructor
+  · rintro ⟨r, hr, h⟩; exact ⟨r, hr, by simpa using h⟩
+  · rintro ⟨r, hr, h⟩; exact ⟨r, hr, by simpa using h⟩
+
+theorem entryDecide_create' {E : Env} {now : Nat} {n : Node} {issuer kid : String} {row : Option PageRow} {nr : PageRow} {rec : CredRec}
+    (h : entryDecide E now n issuer kid row = .create nr rec) :
+    nr.id = n.url nr.issuer nr.page ∧ nr.issuer = issuer ∧ nr.last = 0 ∧ n.isManaged nr.id = false ∧
+    (∃ vc, updateCredential E now nr [] kid = .ok (vc, rec)) ∧ n.cred? nr.id = none := by
+  unfold entryDecide at h
+  simp only at h
+  generalize entryCur E issuer row = cur at h
+  split at h
+  · split at h
+    · cases h
+    · rename_i hm
+      split at h
+      · cases h
+      · split at h
+        · rename_i vc rec' hup
+          split at h
+          · cases h
+          · rename_i hc
+            simp only [WOut.create.injEq] at h
+            obtain ⟨h1, h2⟩ := h
+            subst h1; subst h2
+            refine ⟨rfl, rfl, rfl, by simpa using hm, ⟨vc, hup⟩, ?_⟩
+            cases hh : n.cred? (n.url issuer (cur.page + 1)) with
+            | none => rfl
+            | some x => rw [hh] at hc; simp at hc
+        · cases h
+        · cases h
+  · cases h
+
+/-- the stored credential names the list it is stored under and its bitstring is the one stored next to it -/
+def Named (rec : CredRec) : Prop := ∃ s, rec.raw.body.subjects = [s] ∧ s.id = rec.id ∧ s.enc = .ok rec.bits
+
+theorem updateCredential_named {E : Env} {now : Nat} {row : PageRow} {idxs : List Nat} {kid : String} {vc : VC} {rec : CredRec}
+    (h : updateCredential E now row idxs kid = .ok (vc, rec)) : Named rec := by
+  obtain ⟨_, hid, hraw, _, _, _, hvc⟩ := updateCredential_inv h
+  exact ⟨{ id := row.id, purpose := "revocation", enc := .ok rec.bits }, by rw [hraw, hvc]; rfl, hid.symm, rfl⟩
+
+/-- invariant of one node's status list tables -/
+structure NInv (E : Env) (n : Node) : Prop where
+  own : ∀ r, r ∈ n.pages → r.id = n.url r.issuer r.page
+  le : ∀ r, r ∈ n.pages → r.last ≤ E.maxIndex
+  rng : ∀ rv, rv ∈ n.revs → rv.idx ≤ E.maxIndex
+  fk : ∀ rv, rv ∈ n.revs → n.isManaged rv.list = true
+  has : ∀ u, n.isManaged u = true → ∃ rec, n.cred? u = some rec
+  crec : ∀ u rec, n.isManaged u = true → n.cred? u = some rec →
+    setAll (newBits E.lenBytes) (n.revsOf u) = .ok rec.bits ∧ Signed E rec
+  named : ∀ u rec, n.cred? u = some rec → Named rec
+
+theorem NInv.empty (E : Env) (base : String) (dids : List String) : NInv E { base := base, dids := dids } := by
+  refine { own := ?_, le := ?_, rng := ?_, fk := ?_, has := ?_, crec := ?_, named := ?_ }
+  · intro r hr; cases hr
+  · intro r hr; cases hr
+  · intro r hr; cases hr
+  · intro r hr; cases hr
+  · intro u hu; simp [Node.isManaged, Node.page?] at hu
+  · intro u rec hu; simp [Node.isManaged, Node.page?] at hu
+  · intro u rec hc; simp [Node.cred?] at hc
+
+theorem revsOf_mem {n : Node} {u : Url} {i : Nat} : i ∈ n.revsOf u ↔ ∃ rv, rv ∈ n.revs ∧ rv.list = u ∧ rv.idx = i := by
+  unfold Node.revsOf
+  simp only [List.mem_map, List.mem_filter, beq_iff_eq]
+  constructor
+  · rintro ⟨rv, ⟨h1, h2⟩, h3⟩; exact ⟨rv, h1, h2, h3⟩
+  · rintro ⟨rv, h1, h2, h3⟩; exact ⟨rv, ⟨h1, h2⟩, h3⟩
+
+theorem NInv.revsOf_le {E : Env} {n : Node} (h : NInv E n) (u : Url) : ∀ i, i ∈ n.revsOf u → i ≤ E.maxIndex := by
+  intro i hi
+  obtain ⟨rv, h1, _, h3⟩ := revsOf_mem.mp hi
+  rw [← h3]; exact h.rng rv h1
+
+theorem NInv.of_revoke {E : Env} {now : Nat} {n n' : Node} {credId : String} {e : StatusEntry} (h : NInv E n)
+    (hr : revoke E now n credId e = .ok n') : NInv E n' := by
+  obtain ⟨i, row, kid, vc, rec, _, _, hrow, hkid, _, hile, hup, rfl⟩ := revoke_ok hr
+  obtain ⟨hrmem, hrid⟩ := page?_some hrow
+  obtain ⟨hbits, hrecid, _, _, _, _, _⟩ := updateCredential_inv hup
+  have hsigned := updateCredential_signed hkid hup
+  have hman : ∀ u, (Node.putCred { n with revs := n.revs ++ [{ list := e.list, idx := i, credId := credId }] } rec).isManaged u = n.isManaged u := fun _ => rfl
+  refine { own := h.own, le := h.le, rng := ?_, fk := ?_, has := ?_, crec := ?_, named := ?_ }
+  rotate_right
+  · intro u rec0 hc
+    rw [cred?_putCred] at hc
+    split at hc
+    · cases hc; exact updateCredential_named hup
+    · exact h.named u rec0 hc
+  · intro rv hrv
+    simp only [Node.putCred, List.mem_append, List.mem_singleton] at hrv
+    rcases hrv with hrv | rfl
+    · exact h.rng rv hrv
+    · exact Nat.le_trans hile (h.le row hrmem)
+  · intro rv hrv
+    rw [hman]
+    simp only [Node.putCred, List.mem_append, List.mem_singleton] at hrv
+    rcases hrv with hrv | rfl
+    · exact h.fk rv hrv
+    · exact isManaged_iff.mpr ⟨row, hrmem, hrid⟩
+  · intro u hu
+    rw [hman] at hu
+    rw [cred?_putCred]
+    split
+    · exact ⟨rec, rfl⟩
+    · exact h.has u hu
+  · intro u rec0 hu hc
+    rw [hman] at hu
+    rw [cred?_putCred] at hc
+    have hrevs : (Node.putCred { n with revs := n.revs ++ [{ list := e.list, idx := i, credId := credId }] } rec).revsOf u =
+        ({ n with revs := n.revs ++ [{ list := e.list, idx := i, credId := credId }] } : Node).revsOf u := rfl
+    rw [hrevs]
+    split at hc
+    · rename_i heq
+      cases hc
+      rw [← heq, hrecid, hrid]
+      exact ⟨hbits, hsigned⟩
+    · rename_i hne
+      have : ¬ (e.list = u) := by rw [← hrid, ← hrecid]; exact hne
+      rw [revsOf_append]
+      simp only [this, if_false]
+      exact h.crec u rec0 hu hc
+
+theorem NInv.of_credential {E : Env} {now : Nat} {n n' : Node} {issuer : String} {page : Nat} {vc : VC} (h : NInv E n)
+    (hc : credential E now n issuer page = .ok (vc, n')) : NInv E n' := by
+  obtain ⟨row, hrow, h1 | h1⟩ := credential_ok hc
+  · obtain ⟨_, _, _, _, _, _, rfl⟩ := h1; exact h
+  · obtain ⟨kid, rec, hkid, hup, rfl⟩ := h1
+    obtain ⟨hrmem, hrid⟩ := page?_some hrow
+    obtain ⟨hbits, hrecid, _, _, _, _, _⟩ := updateCredential_inv hup
+    have hiss : row.issuer = issuer := by
+      have := h.own row hrmem
+      rw [hrid] at this
+      simp only [Node.url, Url.sl.injEq] at this
+      exact this.2.1.symm
+    have hsigned := updateCredential_signed (by rw [hiss]; exact hkid) hup
+    refine { own := h.own, le := h.le, rng := h.rng, fk := h.fk, has := ?_, crec := ?_, named := ?_ }
+    rotate_right
+    · intro u rec0 hc0
+      rw [cred?_putCred] at hc0
+      split at hc0
+      · cases hc0; exact updateCredential_named hup
+      · exact h.named u rec0 hc0
+    · intro u hu
+      rw [cred?_putCred]
+      split
+      · exact ⟨rec, rfl⟩
+      · exact h.has u hu
+    · intro u rec0 hu hc0
+      rw [cred?_putCred] at hc0
+      split at hc0
+      · rename_i heq
+        cases hc0
+        have : (n.putCred rec).revsOf u = n.revsOf (n.url issuer page) := by rw [← heq, hrecid, hrid]; rfl
+        rw [this]
+        exact ⟨hbits, hsigned⟩
+      · exact h.crec u rec0 hu hc0
+
+
+theorem isManaged_map (n : Node) (f : PageRow → PageRow) (hf : ∀ r, (f r).id = r.id) (u : Url) :
+    ({ n with pages := n.pages.map f } : Node).isManaged u = n.isManaged u := by
+  rw [Bool.eq_iff_iff, isManaged_iff, isManaged_iff]
+  constructor
+  · rintro ⟨r, hr, h⟩
+    obtain ⟨a, ha, rfl⟩ := List.mem_map.mp hr
+    exact ⟨a, ha, by rw [← hf a]; exact h⟩
+  · rintro ⟨r, hr, h⟩
+    exact ⟨f r, List.mem_map.mpr ⟨r, hr, rfl⟩, by rw [hf r]; exact h⟩
+
+/-- the write half of an `Entry` call with any row (whatever the select returned) keeps the table invariant -/
+theorem NInv.of_entryWrite {E : Env} {now : Nat} {n : Node} {issuer kid : String} {row : Option PageRow} (h : NInv E n)
+    (hk : E.keyOf issuer = some kid) : NInv E (entryWrite E now n issuer kid row).1 := by
+  unfold entryWrite
+  cases hout : entryDecide E now n issuer kid row with
+  | retry pin => exact h
+  | fail e => exact h
+  | update id last =>
+    obtain ⟨r, _, _, _, hle⟩ := entryDecide_update hout
+    simp only [Node.applyOut]
+    have hf : ∀ x : PageRow, (if x.id == id then { x with last := last } else x).id = x.id := by intro x; split <;> rfl
+    have hman := isManaged_map n _ hf
+    refine { own := ?_, le := ?_, rng := h.rng, fk := ?_, has := ?_, crec := ?_, named := h.named }
+    · intro x hx
+      obtain ⟨a, ha, rfl⟩ := List.mem_map.mp hx
+      have := h.own a ha
+      split <;> exact this
+    · intro x hx
+      obtain ⟨a, ha, rfl⟩ := List.mem_map.mp hx
+      split
+      · exact hle
+      · exact h.le a ha
+    · intro rv hrv; rw [hman]; exact h.fk rv hrv
+    · intro u hu; rw [hman] at hu; exact h.has u hu
+    · intro u rec hu hc; rw [hman] at hu; exact h.crec u rec hu hc
+  | create nr rec =>
+    obtain ⟨hown, hiss, hlast, hnm, ⟨vc, hup⟩, hnc⟩ := entryDecide_create' hout
+    obtain ⟨hbits, hrecid, _, _, _, _, _⟩ := updateCredential_inv hup
+    have hsigned := updateCredential_signed (by rw [hiss]; exact hk) hup
+    simp only [Node.applyOut]
+    have hman : ∀ u, ({ n with pages := nr :: n.pages, creds := rec :: n.creds } : Node).isManaged u = true ↔ (u = nr.id ∨ n.isManaged u = true) := by
+      intro u
+      rw [isManaged_iff, isManaged_iff]
+      simp only [List.mem_cons]
+      constructor
+      · rintro ⟨r, hr | hr, e⟩
+        · left; rw [← e, hr]
+        · right; exact ⟨r, hr, e⟩
+      · rintro (e | ⟨r, hr, e⟩)
+        · exact ⟨nr, Or.inl rfl, e.symm⟩
+        · exact ⟨r, Or.inr hr, e⟩
+    have hcred : ∀ u, ({ n with pages := nr :: n.pages, creds := rec :: n.creds } : Node).cred? u = if rec.id = u then some rec else n.cred? u := by
+      intro u
+      unfold Node.cred?
+      simp only [List.find?_cons]
+      by_cases e : rec.id = u
+      · simp [e]
+      · simp [e, show (rec.id == u) = false by simp [e]]
+    have hnorev : n.revsOf nr.id = [] := by
+      cases hh : n.revsOf nr.id with
+      | nil => rfl
+      | cons i rest =>
+        have : i ∈ n.revsOf nr.id := by rw [hh]; exact List.mem_cons_self
+        obtain ⟨rv, h1, h2, _⟩ := revsOf_mem.mp this
+        have := h.fk rv h1
+        rw [h2, hnm] at this; cases this
+    refine { own := ?_, le := ?_, rng := h.rng, fk := ?_, has := ?_, crec := ?_, named := ?_ }
+    rotate_right
+    · intro u rec0 hc
+      rw [hcred] at hc
+      split at hc
+      · cases hc; exact updateCredential_named hup
+      · exact h.named u rec0 hc
+    · intro x hx
+      rcases List.mem_cons.mp hx with rfl | hx
+      · exact hown
+      · exact h.own x hx
+    · intro x hx
+      rcases List.mem_cons.mp hx with rfl | hx
+      · omega
+      · exact h.le x hx
+    · intro rv hrv; exact (hman rv.list).mpr (Or.inr (h.fk rv hrv))
+    · intro u hu
+      rw [hcred]
+      split
+      · exact ⟨rec, rfl⟩
+      · rename_i hne
+        rcases (hman u).mp hu with e | hu'
+        · exact absurd (by rw [hrecid, e]) hne
+        · exact h.has u hu'
+    · intro u rec0 hu hc
+      rw [hcred] at hc
+      have hrevs : ({ n with pages := nr :: n.pages, creds := rec :: n.creds } : Node).revsOf u = n.revsOf u := rfl
+      rw [hrevs]
+      split at hc
+      · rename_i heq
+        cases hc
+        rw [← heq, hrecid, hnorev]
+        exact ⟨hbits, hsigned⟩
+      · rename_i hne
+        rcases (hman u).mp hu with e | hu'
+        · exact absurd (by rw [hrecid, e]) hne
+        · exact h.crec u rec0 hu' hc
+
+theorem bits_exact {E : Env} (hE : EnvOK E) {idxs : List Nat} {bits : Bits} (hr : ∀ i, i ∈ idxs → i ≤ E.maxIndex)
+    (h : setAll (newBits E.lenBytes) idxs = .ok bits) :
+    bits.length = E.lenBytes ∧ ∀ j, j ≤ E.maxIndex → getB bits j = decide (j ∈ idxs) := by
+  have hlen : (newBits E.lenBytes).length = E.lenBytes := by simp [newBits]
+  obtain ⟨bs, h', hl, hb⟩ := setAll_spec idxs (newBits E.lenBytes) (by intro i hi; rw [hlen]; have := hr i hi; have := hE.idx; omega)
+  rw [h] at h'
+  cases h'
+  refine ⟨by rw [hl, hlen], ?_⟩
+  intro j hj
+  rw [hb j (by rw [hlen]; have := hE.idx; omega), getB_newBits]
+  simp
+
+/-! ## served lists -/
+
+/-- `v` is a status list credential for list `u` whose bit set is exactly the revocations of `u` on node `n` -/
+def Served (n : Node) (u : Url) (v : VC) : Prop :=
+  ∃ bits, v.body.subjects = [{ id := u, purpose := "revocation", enc := .ok bits }] ∧
+    (∀ j, getB bits j = true ↔ j ∈ n.revsOf u)
+
+theorem getB_oob {bits : Bits} {j : Nat} (h : ¬ (j < 8 * bits.length)) : getB bits j = false := by
+  unfold getB Bits.bit
+  have h1 : ¬ ((j : Int) < 0) := by omega
+  simp only [h1, if_false, Int.toNat_natCast]
+  have : j / 8 ≥ bits.length := by omega
+  simp [this]
+
+theorem bits_iff {E : Env} (hE : EnvOK E) {idxs : List Nat} {bits : Bits} (hr : ∀ i, i ∈ idxs → i ≤ E.maxIndex)
+    (h : setAll (newBits E.lenBytes) idxs = .ok bits) : ∀ j, getB bits j = true ↔ j ∈ idxs := by
+  obtain ⟨hl, hb⟩ := bits_exact hE hr h
+  intro j
+  by_cases hj : j ≤ E.maxIndex
+  · rw [hb j hj]; simp
+  · have : getB bits j = false := getB_oob (by rw [hl]; have := hE.idx; omega)
+    rw [this]
+    constructor
+    · intro h; cases h
+    · intro h; exact absurd (hr j h) hj
+
+/-- a stored, signed record of a managed list verifies, names its list and carries exactly the revocations -/
+theorem signed_served {E : Env} (hE : EnvOK E) {n : Node} (h : NInv E n) {u : Url} {rec : CredRec}
+    (hu : n.isManaged u = true) (hc : n.cred? u = some rec) :
+    E.verify rec.raw = true ∧ Served n u rec.raw ∧ rec.raw.body.expires = rec.expires ∧ rec.purpose = "revocation" ∧
+    (∀ j, getB rec.bits j = true ↔ j ∈ n.revsOf u) := by
+  obtain ⟨hbits, kid, row, t, hk, hid, hraw, hexp, hp⟩ := h.crec u rec hu hc
+  have hrid : rec.id = u := (cred?_some hc).2
+  have hiff := bits_iff hE (h.revsOf_le u) hbits
+  refine ⟨?_, ?_, ?_, hp, hiff⟩
+  · rw [hraw]; exact hE.sign row.issuer kid _ hk rfl
+  · rw [hraw]; exact ⟨rec.bits, by simp [listBody, hid, hrid], hiff⟩
+  · rw [hraw, hexp]; rfl
+
+/-- every list the node serves is validly signed, is not about to expire, names the requested list and carries exactly
+    the revocations of that list -/
+theorem credential_served {E : Env} (hE : EnvOK E) {now : Nat} {n n' : Node} (h : NInv E n) {issuer : String} {page : Nat} {vc : VC}
+    (hc : credential E now n issuer page = .ok (vc, n')) :
+    E.verify vc = true ∧ (∃ e, vc.body.expires = some e ∧ now + E.minLeft ≤ e) ∧ Served n' (n.url issuer page) vc ∧
+    vc.proof.isSome = true ∧ n'.revs = n.revs := by
+  obtain ⟨row, hrow, h1 | h1⟩ := credential_ok hc
+  · obtain ⟨rec, e, hrec, he, hlt, hvc, hn⟩ := h1
+    rw [hvc, hn]
+    have hu : n.isManaged (n.url issuer page) = true := by simp only [Node.isManaged, hrow]; rfl
+    obtain ⟨hv, hs, hx, _, _⟩ := signed_served hE h hu hrec
+    refine ⟨hv, ⟨e, by rw [hx, he], by omega⟩, hs, ?_, rfl⟩
+    obtain ⟨_, kid, row', t, _, _, hraw, _, _⟩ := h.crec _ rec hu hrec
+    rw [hraw]; rfl
+  · obtain ⟨kid, rec, hkid, hup, rfl⟩ := h1
+    obtain ⟨hrmem, hrid⟩ := page?_some hrow
+    obtain ⟨hbits, _, _, _, _, _, hvc⟩ := updateCredential_inv hup
+    have hiss : row.issuer = issuer := by
+      have := h.own row hrmem
+      rw [hrid] at this
+      simp only [Node.url, Url.sl.injEq] at this
+      exact this.2.1.symm
+    have hiff := bits_iff hE (h.revsOf_le _) hbits
+    refine ⟨?_, ⟨now + E.validity, by rw [hvc]; rfl, by have := hE.min; omega⟩, ?_, by rw [hvc]; rfl, rfl⟩
+    · rw [hvc]; exact hE.sign row.issuer kid _ (by rw [hiss]; exact hkid) rfl
+    · rw [hvc]; exact ⟨rec.bits, by simp [listBody, hrid], hiff⟩
+
+/-! ## verifier side -/
+
+theorem validate_ok {v : VC} {s : Subject} (h : validate v = .ok s) :
+    v.body.subjects = [s] ∧ s.purpose ≠ "" ∧ v.proof.isSome = true := by
+  unfold validate at h
+  by_cases c0 : (!v.body.ctxV1) = true
+  · rw [if_pos c0] at h; cases h
+  rw [if_neg c0] at h
+  by_cases c1 : (!v.body.ctxSL) = true
+  · rw [if_pos c1] at h; cases h
+  rw [if_neg c1] at h
+  by_cases c2 : (!v.body.typeVC) = true
+  · rw [if_pos c2] at h; cases h
+  rw [if_neg c2] at h
+  by_cases c3 : (!v.body.typeSL) = true
+  · rw [if_pos c3] at h; cases h
+  rw [if_neg c3] at h
+  by_cases c4 : v.body.nTypes > 2
+  · rw [if_pos c4] at h; cases h
+  rw [if_neg c4] at h
+  by_cases c5 : (!v.body.hasId) = true
+  · rw [if_pos c5] at h; cases h
+  rw [if_neg c5] at h
+  by_cases c6 : v.body.issued.isNone = true
+  · rw [if_pos c6] at h; cases h
+  rw [if_neg c6] at h
+  by_cases c7 : v.proof.isNone = true
+  · rw [if_pos c7] at h; cases h
+  rw [if_neg c7] at h
+  by_cases c8 : v.body.hasStatus = true
+  · rw [if_pos c8] at h; cases h
+  rw [if_neg c8] at h
+  split at h
+  · rename_i s' heq
+    by_cases d0 : (!s'.typeOk) = true
+    · rw [if_pos d0] at h; cases h
+    rw [if_neg d0] at h
+    by_cases d1 : (s'.purpose == "") = true
+    · rw [if_pos d1] at h; cases h
+    rw [if_neg d1] at h
+    by_cases d2 : (s'.enc == Enc.empty) = true
+    · rw [if_pos d2] at h; cases h
+    rw [if_neg d2] at h
+    simp only [Res.ok.injEq] at h
+    subst h
+    refine ⟨heq, by simpa using d1, ?_⟩
+    cases hh : v.proof with
+    | none => simp [hh] at c7
+    | some _ => rfl
+  · cases h
+
+theorem verifyList_ok {E : Env} {v : VC} {s : Subject} {bits : Bits} (h : verifyList E v = .ok (s, bits)) :
+    v.body.subjects = [s] ∧ s.enc = .ok bits ∧ E.verify v = true := by
+  unfold verifyList at h
+  split at h
+  · rename_i s' hv
+    split at h
+    · rename_i bits' henc
+      split at h
+      · rename_i hver
+        simp only [Res.ok.injEq, Prod.mk.injEq] at h
+        obtain ⟨rfl, rfl⟩ := h
+        exact ⟨(validate_ok hv).1, henc, hver⟩
+      · cases h
+    · cases h
+  · cases h
+  · cases h
+
+/-- what a successful `update` stored: a credential that verified, whose subject id is the requested URL -/
+theorem update_ok {E : Env} {now : Nat} {n n' : Node} {u : Url} {f : Fetch} {rec : CredRec}
+    (h : update E now n u f = .ok (rec, n')) :
+    ∃ v s, f = .vc v ∧ v.body.subjects = [s] ∧ s.id = u ∧ s.enc = .ok rec.bits ∧ E.verify v = true ∧
+      rec.id = u ∧ rec.purpose = s.purpose ∧ rec.raw = v ∧ rec.createdAt = now ∧ rec.expires = v.body.expires ∧ n' = n.putCred rec := by
+  unfold update at h
+  split at h
+  · cases h
+  · rename_i v
+    split at h
+    · rename_i s bits hv
+      split at h
+      · cases h
+      · rename_i hid
+        simp only [Res.ok.injEq, Prod.mk.injEq] at h
+        obtain ⟨rfl, rfl⟩ := h
+        obtain ⟨h1, h2, h3⟩ := verifyList_ok hv
+        exact ⟨v, s, rfl, h1, by simp at hid; exact hid.symm, h2, h3, rfl, rfl, rfl, rfl, rfl, rfl⟩
+    · cases h
+    · cases h
+
+/-- the record `statusList` hands out is the stored one, or the one a successful `update` just stored -/
+theorem statusList_ok {E : Env} {now : Nat} {n n' : Node} {u : Url} {f : Fetch} {rec : CredRec}
+    (h : statusList E now n u f = .ok (rec, n')) :
+    (n' = n ∧ n.cred? u = some rec) ∨
+    (update E now n u f = .ok (rec, n') ∧ (n.cred? u = none ∨ n.isManaged u = false) ∧ needsFetch E now n u = true) := by
+  unfold statusList at h
+  split at h
+  · rename_i hnone
+    exact Or.inr ⟨h, Or.inl hnone, by simp [needsFetch, hnone]⟩
+  · rename_i rec0 hsome
+    split at h
+    · simp only [Res.ok.injEq, Prod.mk.injEq] at h
+      obtain ⟨rfl, rfl⟩ := h
+      exact Or.inl ⟨rfl, hsome⟩
+    · rename_i hnm
+      split at h
+      · rename_i hstale
+        split at h
+        · rename_i r hup
+          simp only [Res.ok.injEq] at h
+          subst h
+          exact Or.inr ⟨hup, Or.inr (by simpa using hnm), by simp [needsFetch, hsome, hnm, hstale]⟩
+        · simp only [Res.ok.injEq, Prod.mk.injEq] at h
+          obtain ⟨rfl, rfl⟩ := h
+          exact Or.inl ⟨rfl, hsome⟩
+      · simp only [Res.ok.injEq, Prod.mk.injEq] at h
+        obtain ⟨rfl, rfl⟩ := h
+        exact Or.inl ⟨rfl, hsome⟩
+
+/-- storing a downloaded list under a URL this node does not manage keeps the table invariant -/
+theorem NInv.of_update {E : Env} {now : Nat} {n n' : Node} {u : Url} {f : Fetch} {rec : CredRec} (h : NInv E n)
+    (hu : n.cred? u = none ∨ n.isManaged u = false) (hup : update E now n u f = .ok (rec, n')) : NInv E n' := by
+  obtain ⟨v, s, _, hsub, hsid, henc, _, hid, _, hraw, _, _, rfl⟩ := update_ok hup
+  have hnamed : Named rec := ⟨s, by rw [hraw]; exact hsub, by rw [hsid, hid], henc⟩
+  have hnm : n.isManaged u = false := by
+    rcases hu with hu | hu
+    · cases hm : n.isManaged u with
+      | false => rfl
+      | true => obtain ⟨r, hr⟩ := h.has u hm; rw [hu] at hr; cases hr
+    · exact hu
+  refine { own := h.own, le := h.le, rng := h.rng, fk := h.fk, has := ?_, crec := ?_, named := ?_ }
+  rotate_right
+  · intro u' rec0 hc
+    rw [cred?_putCred] at hc
+    split at hc
+    · cases hc; exact hnamed
+    · exact h.named u' rec0 hc
+  · intro u' hu'
+    rw [cred?_putCred]
+    split
+    · exact ⟨rec, rfl⟩
+    · exact h.has u' hu'
+  · intro u' rec0 hu' hc
+    rw [cred?_putCred] at hc
+    split at hc
+    · rename_i heq
+      have : n.isManaged u' = true := hu'
+      rw [← heq, hid, hnm] at this; cases this
+    · exact h.crec u' rec0 hu' hc
+
 end Nuts.C11
